@@ -398,6 +398,64 @@ fn shrink(script: &[String], kind: &str, sig: &str, property: Option<&str>, dir:
     cur
 }
 
+/// C05, one level of sub-stores: a root store (with or without an identifier of its own) that includes a sub-store kept
+/// in its own file. The documents are loaded, saved by the library, loaded again and saved again: identifiers (of the
+/// root, of the sub-store, of the items), which annotation belongs to which store and the texts must be the same, and
+/// the second save must write what the first wrote.
+fn check_substores(rep: &mut Report, dir: &std::path::Path, i: usize) {
+    let sub = dir.join(format!("ss{}", i));
+    std::fs::create_dir_all(&sub).ok();
+    let root_has_id = i % 2 == 0;
+    let sub_has_id = i % 3 != 0;
+    let nsub = 1 + i % 2;
+    let ann = |id: &str, res: &str, b: usize, e: usize, val: &str| format!("{{\"@type\": \"Annotation\", \"@id\": \"{}\", \"target\": {{\"@type\": \"TextSelector\", \"resource\": \"{}\", \"offset\": {{\"@type\": \"Offset\", \"begin\": {{\"@type\": \"BeginAlignedCursor\", \"value\": {}}}, \"end\": {{\"@type\": \"BeginAlignedCursor\", \"value\": {}}}}}}}, \"data\": [{{\"@type\": \"AnnotationData\", \"set\": \"set-{}\", \"key\": \"k\", \"value\": {{\"@type\": \"String\", \"value\": \"{}\"}}}}]}}", id, res, b, e, res, val);
+    let doc = |id: Option<&str>, includes: &[String], tag: &str| format!("{{\"@type\": \"AnnotationStore\"{}{}, \"resources\": [{{\"@type\": \"TextResource\", \"@id\": \"{}\", \"text\": \"hello w\u{f6}rld {}\"}}], \"annotationsets\": [{{\"@type\": \"AnnotationDataSet\", \"@id\": \"set-{}\", \"keys\": [{{\"@type\": \"DataKey\", \"@id\": \"k\"}}], \"data\": []}}], \"annotations\": [{}, {}]}}",
+        id.map(|x| format!(", \"@id\": \"{}\"", x)).unwrap_or_default(),
+        if includes.is_empty() { String::new() } else { format!(", \"@include\": [{}]", includes.iter().map(|x| format!("\"{}\"", x)).collect::<Vec<_>>().join(", ")) },
+        tag, tag, tag, ann(&format!("{}-a0", tag), tag, 0, 5, "x"), ann(&format!("{}-a1", tag), tag, 6, 11, "y"));
+    let subnames: Vec<String> = (0..nsub).map(|k| format!("sub{}.store.stam.json", k)).collect();
+    for (k, n) in subnames.iter().enumerate() {
+        let sid = format!("the-substore-{}", k);
+        std::fs::write(sub.join(n), doc(if sub_has_id { Some(sid.as_str()) } else { None }, &[], &format!("s{}", k))).ok();
+    }
+    let rootpath = sub.join("root.store.stam.json");
+    std::fs::write(&rootpath, doc(if root_has_id { Some("the-root") } else { None }, &subnames, "root")).ok();
+    let p = rootpath.to_str().unwrap().to_string();
+    let ctx = vec![format!("sub-stores: root {} an identifier, {} sub-store(s) {} identifiers, loaded from {}", if root_has_id { "with" } else { "without" }, nsub, if sub_has_id { "with" } else { "without" }, "root.store.stam.json")];
+    rep.count("json:substores");
+    rep.case(Some(&format!("substores {} {} {}", root_has_id, sub_has_id, nsub)));
+    let describe = |st: &AnnotationStore| -> Vec<String> {
+        let mut v = vec![format!("root id {:?}", st.id())];
+        for ss in st.substores() { v.push(format!("substore id {:?} with {} annotations", ss.id(), ss.as_ref().annotations_len())); }
+        for a in st.annotations() { v.push(format!("annotation {:?} in substore {:?} text {:?}", a.id(), a.substore().map(|x| x.id().map(|y| y.to_string())), a.text_join("|"))); }
+        for r in st.resources() { v.push(format!("resource {:?}", r.id())); }
+        for d in st.datasets() { v.push(format!("dataset {:?} keys {}", d.id(), d.keys().count())); }
+        v
+    };
+    let want_ids: Vec<String> = std::iter::once(format!("root id {:?}", if root_has_id { Some("the-root") } else { None })).chain((0..nsub).map(|k| format!("substore id {:?} with 2 annotations", if sub_has_id { Some(format!("the-substore-{}", k)) } else { None }))).collect();
+    let load = |p: &str| guarded(std::panic::AssertUnwindSafe(|| AnnotationStore::from_file(p, Config::default())));
+    let st1 = match load(&p) { Ok(Ok(s)) => s, Ok(Err(e)) => { rep.fail("oracle", "C05/substores/load-fails", ctx, "the store loads", &format!("{}", e)); std::fs::remove_dir_all(&sub).ok(); return; } Err(m) => { rep.fail("panic", "C05/substores/load-panics", ctx, "the store loads", &m); std::fs::remove_dir_all(&sub).ok(); return; } };
+    let d1 = describe(&st1);
+    if sub_has_id && d1[..want_ids.len()] != want_ids[..] { rep.fail("oracle", "C05/substores/identifiers-differ-from-the-documents", ctx.clone(), &format!("{:?}", want_ids), &format!("{:?}", &d1[..want_ids.len().min(d1.len())])); }
+    if d1.iter().filter(|l| l.starts_with("annotation")).count() != 2 + 2 * nsub { rep.fail("oracle", "C05/substores/annotations-missing", ctx.clone(), &format!("{} annotations", 2 + 2 * nsub), &format!("{:?}", d1)); }
+    let read_all = |dir: &std::path::Path| -> Vec<(String, String)> { let mut v: Vec<(String, String)> = std::fs::read_dir(dir).map(|rd| rd.flatten().filter_map(|e| std::fs::read_to_string(e.path()).ok().map(|t| (e.file_name().to_string_lossy().to_string(), t))).collect()).unwrap_or_default(); v.sort(); v };
+    if let Err(e) = guarded(std::panic::AssertUnwindSafe(|| st1.save())).map_err(|m| m).and_then(|r| r.map_err(|e| format!("{}", e))) { rep.fail("oracle", "C05/substores/save-fails", ctx.clone(), "saved", &e); std::fs::remove_dir_all(&sub).ok(); return; }
+    let files1 = read_all(&sub);
+    match load(&p) {
+        Ok(Ok(st2)) => {
+            let d2 = describe(&st2);
+            if d2 != d1 { let (x, y) = first_diff(&d1, &d2); rep.fail("oracle", "C05/substores/reload-differs", ctx.clone(), &x, &y); }
+            if let Ok(Ok(())) = guarded(std::panic::AssertUnwindSafe(|| st2.save())) {
+                let files2 = read_all(&sub);
+                if files2 != files1 { let a: Vec<String> = files1.iter().flat_map(|f| f.1.lines().map(|l| format!("{}: {}", f.0, l)).collect::<Vec<_>>()).collect(); let b: Vec<String> = files2.iter().flat_map(|f| f.1.lines().map(|l| format!("{}: {}", f.0, l)).collect::<Vec<_>>()).collect(); let (x, y) = first_diff(&a, &b); rep.fail("oracle", "C05/substores/second-write-differs", ctx.clone(), &x, &y); }
+            } else { rep.fail("oracle", "C05/substores/second-save-fails", ctx.clone(), "saved", "error"); }
+        }
+        Ok(Err(e)) => rep.fail("oracle", "C05/substores/reload-fails", ctx.clone(), "the saved store loads", &format!("{}", e)),
+        Err(m) => rep.fail("panic", "C05/substores/reload-panics", ctx.clone(), "the saved store loads", &m),
+    }
+    std::fs::remove_dir_all(&sub).ok();
+}
+
 pub fn run(opts: &Opts) -> Report {
     let mut rep = Report::new(
         "serial",
@@ -420,6 +478,7 @@ pub fn run(opts: &Opts) -> Report {
             rep.sample(json!({"script": script, "canonical_form": before}));
         }
     }
+    if property.map(|p| p == "C05").unwrap_or(true) { for i in 0..12 { check_substores(&mut rep, &dir, i); } }
     // minimise
     let mut done: std::collections::BTreeSet<(String, String)> = Default::default();
     for idx in 0..rep.failures.len() {
